@@ -7,12 +7,17 @@ Import ListNotations.
 Local Open Scope R_scope.
 
 
-(* computeKirchhoffStressDerivativeFromCauchyStressDerivative(ds, s(F), F) is the Jacobian of F |-> det(F) s(F), s(F) = s0 + X.F *)
-Theorem C06_kirchhoff_from_cauchy : kirchhoff_from_cauchy_stmt1 /\ kirchhoff_from_cauchy_stmt2 /\ kirchhoff_from_cauchy_stmt3.
-Proof. exact (conj kirchhoff_from_cauchy_ok1 (conj kirchhoff_from_cauchy_ok2 kirchhoff_from_cauchy_ok3)). Qed.
-Print Assumptions C06_kirchhoff_from_cauchy.
+(* convertCauchyStressDerivativeToFirstPiolaKirchoffStressDerivative(ds, F, s(F)) is the Jacobian of F |-> convertCauchyStressToFirstPiolaKirchhoffStress(s(F), F), s(F) = s0 + X.F -- 1D and 2D (3D: Properties_C06t1.v, thorough tier) *)
+Theorem C06_pk1_from_cauchy_1D_2D : pk1_from_cauchy_stmt1 /\ pk1_from_cauchy_stmt2.
+Proof. exact (conj pk1_from_cauchy_ok1 pk1_from_cauchy_ok2). Qed.
+Print Assumptions C06_pk1_from_cauchy_1D_2D.
 
-(* computeCauchyStressDerivativeFromKirchhoffStressDerivative(dtau, tau(F)/det F, F) is the Jacobian of F |-> tau(F)/det(F), tau(F) = t0 + X.F (det F <> 0) *)
-Theorem C06_cauchy_from_kirchhoff : cauchy_from_kirchhoff_stmt1 /\ cauchy_from_kirchhoff_stmt2 /\ cauchy_from_kirchhoff_stmt3.
-Proof. exact (conj cauchy_from_kirchhoff_ok1 (conj cauchy_from_kirchhoff_ok2 cauchy_from_kirchhoff_ok3)). Qed.
-Print Assumptions C06_cauchy_from_kirchhoff.
+(* convertSecondPiolaKirchhoffStressDerivativeToFirstPiolaKirchoffStressDerivative(dS/dE, F, sigma(F)) is the Jacobian of F |-> P(F) = F.S(F), S(F) = S0 + X.E_GL(F), through the conversions of /repo (det F <> 0) -- 1D and 2D (3D: Properties_C06t6.v, thorough tier) *)
+Theorem C06_pk1_from_pk2_1D_2D : pk1_from_pk2_stmt1 /\ pk1_from_pk2_stmt2.
+Proof. exact (conj pk1_from_pk2_ok1 pk1_from_pk2_ok2). Qed.
+Print Assumptions C06_pk1_from_pk2_1D_2D.
+
+(* convertFirstPiolaKirchoffStressDerivativeToKirchhoffStressDerivative(dP, F0, s0) is the Jacobian at F0 of F |-> det(F) convertFirstPiolaKirchhoffStressToCauchyStress(P(F), F), P(F) = P(s0, F0) + X.(F - F0) (det F0 <> 0) -- 1D and 2D (3D: Properties_C06t7.v, thorough tier) *)
+Theorem C06_tau_from_pk1_1D_2D : tau_from_pk1_stmt1 /\ tau_from_pk1_stmt2.
+Proof. exact (conj tau_from_pk1_ok1 tau_from_pk1_ok2). Qed.
+Print Assumptions C06_tau_from_pk1_1D_2D.
